@@ -13,13 +13,15 @@ CHECKS = {
         text="Every entry of every value array returned by the real solve function (eager and jitted) for seeded random models "
              "of 10 feature strata is compared by TLC with the exact rational Bellman solution of spec/Bellman.tla (trace "
              "validation with total verdicts); MC_Solve checks the implementation-shaped backward loop against the declarative "
-             "equation on a family of models defined in TLA+.",
+             "equation on a family of models defined in TLA+ (and, under weak fairness, that the loop terminates with every period "
+             "solved). Every fifth case runs with jax_enable_x64.",
         note="Trusted: TLC, the TLA+ reference semantics, the MDL->Python code generator (harness/mdl.py). Small grids "
              "(<= 1500 state-choice cells per period, T <= 4); exact dyadic families + tolerance families.",
         technique="TLA+ reference semantics (exact rationals) + TLC trace validation of recorded solve results", ref="§6 C01"),
     "C02": dict(
         text="Every row of every simulated frame (1-8 agents, on and off the grid, all mixes of filtered/unfiltered discrete and "
-             "0-2 continuous choices, value arrays from solve / the combined target / arbitrary arrays) is judged by TLC: grid "
+             "0-2 continuous choices, value arrays from solve / the combined target / arbitrary arrays handed to either target; every "
+             "fifth case in float64 mode) is judged by TLC: grid "
              "values, filters and constraints at the logged state, Q(choice) = max Q, value = max Q. Thorough: MC_Sim checks the "
              "implementation-shaped forward step of spec/Simulate.tla against the declarative rule for every model of "
              "spec/Family.tla and every two-agent batch (MC_Sim_d3.cfg = the repaired defect D3 is found by TLC).",
@@ -72,7 +74,8 @@ CHECKS = {
         text="MC_Argmax: every array over {0,1,2} x every mask x every ordered axes subset (shapes <= 4, thorough 6 cells): the "
              "implementation-shaped arg-max satisfies the declarative clause; the same cases run through lcm.argmax.argmax eagerly, "
              "jitted and fused into a larger jitted computation, plus segment_argmax and get_solve_discrete_problem cases; TLC judges "
-             "every output position.",
+             "every output position. Whole one-period models run with jax_enable_x64 whose objective values differ by less than "
+             "float32 resolution exercise the arg-max primitives inside lcm's own fused computation (tolerance 0).",
         note="Fused inexact cases are judged on values with tolerance 2^-8, never on arg-max identity.",
         technique="TLC exhaustive small-scope enumeration + replay + TLC trace validation", ref="§6 C18"),
     "C19": dict(
@@ -112,7 +115,8 @@ CHECKS = {
              "rejects every one of the 2^8 sets of violated rules at an early stage and completes otherwise; the same rule sets "
              "are applied to 4 base templates and replayed (stage reached and exception class recorded at every step, error path "
              "included); TLC (Lifecycle!LifecycleClause) accepts only early rejection with the three allowed error classes. "
-             "Converse: a catalogue of accepted-but-unusual shapes and random accepted models must solve and simulate.",
+             "Converse: a catalogue of accepted-but-unusual shapes, accepted instances of every template and random accepted models "
+             "must solve, simulate and re-simulate. Liveness (weak fairness): every life cycle ends; an accepted one completes.",
         note="Six accepted shapes that crash later are listed in known_findings.json (D5, D6, D8, D12, D14, D15) and reported as "
              "KNOWN-FINDING; any other late failure is a violation.",
         technique="TLC enumeration of rule-violation sets + replay of the life cycle + TLC trace validation", ref="§6 C12"),
@@ -120,7 +124,9 @@ CHECKS = {
         text="Call histories (depth 10; 2 models x 3 parameter sets x 2 batches x 2 seeds x jit on/off; function objects re-created) "
              "are behaviours of spec/Api.tla generated by tlc -simulate and replayed on live function objects; TraceApi (reusing "
              "Api's actions) requires equal denotation term => identical result digest, also for re-runs in fresh processes under "
-             "other PYTHONHASHSEEDs, and unchanged fingerprints of the model and of the params (python/numpy/jax leaves); every "
+             "other PYTHONHASHSEEDs, and unchanged fingerprints of the model, of the params passed (python/numpy/jax leaves; a fresh "
+             "object or the returned template filled in place and held by the user: Api!held, FillTemplate) and of every params "
+             "object the user still holds; the combined target with explicit value arrays (Api!CallCombinedWithArrays); every "
              "result is additionally validated against the reference semantics of its own arguments (TracePipeline). MC_Api checks "
              "the Api invariants exhaustively for small constants.",
         note="Digests are bitwise: histories use the exact dyadic model family, where jit/no-jit and batch width cannot change bits.",
@@ -144,7 +150,9 @@ CHECKS = {
              "TraceKeys, which reuses Keys' actions: seed-ignored, carry-chain-broken, key-reuse, key-shared, draw-key. (2) Panels of "
              "4000-8000 agents: TLC checks next-label counts per transition row, also conditional on the neighbouring agent's, the "
              "previous and another variable's draw, against the rows of the specification with an exact-integer 6-sigma region "
-             "(zero-probability labels must not occur). (3) Same seed => identical frame, other seed => identical period 0.",
+             "(zero-probability labels must not occur). (3) Same seed => identical frame, other seed => identical period 0 (seeds include the ends of the range: 0, "
+             "1, 2^31-1). MC_Keys also checks liveness under weak fairness (every period simulated, every variable draws in every "
+             "period); spec/apalache/KeysInd.tla discharges an inductive invariant of the key discipline for unbounded sizes.",
         note="Trusted base: jax.random.split/choice. The statistical clause is an acceptance test (6 sigma, deterministic for a fixed VERIF_SEED).",
         technique="TLC model checking of the key discipline + trace validation of hooked key events + TLC-evaluated exact-integer frequency tests", ref="§6 C04"),
 }
